@@ -22,7 +22,7 @@ EXHAUSTIVE = {"quick": ["every count vector with N=2..12, K<=4 (zeros allowed)",
               "thorough": ["every count vector with N=2..22, K<=5", "two-sample: every pair K<=3, N1,N2<=6"]}
 REQUIRE = {"vectors_checked": 1190, "varpc_exact_identities": 1000, "pc_exact_identities": 1190, "stdpc_n_checked": 300,
            "stdpc_sample_checked": 100, "expectation_identities_pc": 12, "expectation_identities_var": 8,
-           "expectation_identities_two_sample": 4, "two_sample_vectors": 200, "two_sample_tables": 50, "stdpc_joint_checked": 6, "large_vectors": 7}
+           "expectation_identities_two_sample": 4, "two_sample_vectors": 200, "two_sample_tables": 50, "stdpc_joint_checked": 6, "large_vectors": 7, "big_samples": 2}
 SHARDS = {"quick": 6, "thorough": 16}
 
 
@@ -254,7 +254,32 @@ def k_joint(ctx, rows, cols):
             ctx.violation("stdpc_joint:wrong", "stdpc_joint(df, cols)^2 != unbiased variance on the row-tuple counts", out.describe(), str(want_var))
 
 
-KINDS = {"vecs": k_vecs, "vec": k_vec, "two": k_two, "expect": k_expect, "joint": k_joint}
+def k_bigsample(ctx, n, etype):
+    import numpy as np
+    import pyrepseq as prs
+    xs = [(f"c{i}" if etype == "str" else i) for i, m in enumerate(n) for _ in range(m)]
+    random.Random(len(xs)).shuffle(xs)
+    want = O.U2(n)
+    ctx.count("big_samples")
+    ctx.nontriv(["big", n, etype])
+    ctx.sample("bigsample", {"n": n, "etype": etype})
+    out = ctx.call(prs.pc, xs)
+    if not out.ok or not _close(out.value, want):
+        ctx.violation("pc:large-sample:wrong", "pc of a large sample with a dominant category is not the U-statistic of its counts (integer overflow?)",
+                      out.describe(), f"{float(want)}", {"n": n})
+    out = ctx.call(prs.pc, np.array(xs), xs[: len(xs) // 2])
+    want2 = Fraction(sum(a * b for a, b in zip(n, [xs[: len(xs) // 2].count(f"c{i}" if etype == "str" else i) for i in range(len(n))])), len(xs) * (len(xs) // 2))
+    if not out.ok or not _close(out.value, want2):
+        ctx.violation("pc:two-sample:large-sample:wrong", "two-sample pc of large samples is not sum n1_i n2_i/(N1 N2)", out.describe(), f"{float(want2)}", {"n": n})
+    if sum(n) >= 4:
+        want_var = want * want - O.U22(n)
+        if want_var > 0:
+            sd = ctx.call(prs.stdpc, xs)
+            if not sd.ok or not _close(float(sd.value) ** 2 if sd.ok else None, want_var, 1e-10):
+                ctx.violation("stdpc:large-sample:wrong", "stdpc(sample)^2 != unbiased variance of its counts", sd.describe(), f"{float(want_var)}", {"n": n})
+
+
+KINDS = {"bigsample": k_bigsample, "vecs": k_vecs, "vec": k_vec, "two": k_two, "expect": k_expect, "joint": k_joint}
 
 
 def _rand_p(rng, K):
@@ -297,8 +322,12 @@ def generate(tier, seed):
             n[0] += 4
         yield "vec", {"n": n}, i < 15
     cells = ["A", "B", "AB", "C"]
-    for i in range(150 * TS if thorough else 16):
+    for i in range(150 * TS if thorough else 24):
         nr = rng.randint(4, 30)
-        rows = [[rng.choice(cells), rng.choice(cells)] for _ in range(nr)]
+        nc = 1 + i % 4
+        rows = [[rng.choice(cells[: 2 + (i + c) % 3]) for c in range(nc)] for _ in range(nr)]
         rows[1] = list(rows[0])
-        yield "joint", {"rows": rows, "cols": ["x", "y"]}, i < 12
+        yield "joint", {"rows": rows, "cols": ["x", "y", "z", "w"][:nc]}, i < 16
+    # large samples with a dominant category (counts beyond 2^15.5: products overflow 32-bit integers)
+    for i, n in enumerate([[50000, 9000, 1000], [46342, 3], [70000], [100, 65536, 7]] + ([[200000, 100000, 5]] if thorough else [])):
+        yield "bigsample", {"n": n, "etype": ["str", "int"][i % 2]}, True
